@@ -120,9 +120,41 @@ MUTANTS = [
       "        self.node = node\n        self.name = normalize(namex)\n",
       "class Deleter:\n    def __init__(self, node, namex, must_exist=True, must_be_directory=False, must_be_file=False):\n"
       "        self.node = node\n        self.name = namex\n", "C19.4"),
+    # MetadataSetter's only construction site (set_metadata_for) hands in normalize(namex): dropping the second
+    # normalisation in the constructor alone changes nothing; dropping both is the breakage
     M("metadata-setter-raw-name", D,
       "        self.node = node\n        self.name = normalize(namex)\n        self.metadata = metadata\n",
-      "        self.node = node\n        self.name = namex\n        self.metadata = metadata\n", "C19.4"),
+      "        self.node = node\n        self.name = namex\n        self.metadata = metadata\n", "C19.4",
+      edits=[(D, "        name = normalize(namex)\n        if self.is_readonly():\n            return defer.fail(NotWriteableError())\n"
+                 "        assert isinstance(metadata, dict)\n",
+              "        name = namex\n        if self.is_readonly():\n            return defer.fail(NotWriteableError())\n"
+              "        assert isinstance(metadata, dict)\n")]),
+    M("benign-metadata-setter-trusts-normalising-caller", D,
+      "        self.node = node\n        self.name = normalize(namex)\n        self.metadata = metadata\n",
+      "        self.node = node\n        self.name = namex\n        self.metadata = metadata\n", None),
+    # the normalisation moved to the caller, but only on one path / only at one of two construction sites
+    M("deleter-normalised-by-caller-on-one-path-only", D,
+      "        self.name = normalize(namex)\n        self.must_exist = must_exist\n",
+      "        self.name = namex\n        self.must_exist = must_exist\n", "C19.4",
+      edits=[(D, "        deleter = Deleter(self, namex, must_exist=must_exist,",
+              "        if must_exist:\n            namex = normalize(namex)\n"
+              "        deleter = Deleter(self, namex, must_exist=must_exist,")]),
+    M("deleter-normalised-by-one-of-two-callers", D,
+      "        self.name = normalize(namex)\n        self.must_exist = must_exist\n",
+      "        self.name = namex\n        self.must_exist = must_exist\n", "C19.4",
+      edits=[(D, "        deleter = Deleter(self, namex, must_exist=must_exist,",
+              "        if must_be_file:\n            deleter = Deleter(self, namex, must_exist=must_exist, must_be_file=True)\n"
+              "        deleter = Deleter(self, normalize(namex), must_exist=must_exist,")]),
+    M("deleter-class-handed-around-as-a-value", D,
+      "        self.name = normalize(namex)\n        self.must_exist = must_exist\n",
+      "        self.name = namex\n        self.must_exist = must_exist\n", "C19.4",
+      edits=[(D, "        deleter = Deleter(self, namex, must_exist=must_exist,",
+              "        mk = Deleter\n        deleter = mk(self, namex, must_exist=must_exist,")]),
+    M("deleter-caller-normalises-another-name", D,
+      "        self.name = normalize(namex)\n        self.must_exist = must_exist\n",
+      "        self.name = namex\n        self.must_exist = must_exist\n", "C19.4",
+      edits=[(D, "        deleter = Deleter(self, namex, must_exist=must_exist,",
+              "        name = normalize(namex)\n        deleter = Deleter(self, namex, must_exist=must_exist,")]),
     M("adder-bulk-update", D,
       "        new_contents = self.node._pack_contents(children)\n        return new_contents\n\ndef _encrypt_rw_uri",
       "        children.update({})\n        new_contents = self.node._pack_contents(children)\n        return new_contents\n\n"
@@ -866,3 +898,50 @@ MUTANTS += [
     M("vanish-wrap", U, "def wrap_dirnode_cap(filecap):", "def wrap_dirnode_capX(filecap):", "ANALYSIS-ERROR",
       edits=[(D, "from allmydata.uri import wrap_dirnode_cap\n", "from allmydata.uri import wrap_dirnode_capX as wrap_dirnode_cap\n")]),
 ]
+
+# behaviour-preserving refactors from the C20 self-test that used to trip C19.4 (cross-property robustness run): the
+# child name is normalised by the caller of the modifier's constructor; a new modifier class built the same way
+try:
+    from . import C20 as _c20
+    _want = ("benign-deleter-normalised-by-caller", "benign-deleter-normalised-local-in-caller",
+             "benign-rename-op-correct-modifier")
+    _have = {m.id for m in MUTANTS}
+    for _m in _c20.MUTANTS:
+        if _m.id in _want and _m.expect is None and ("c20-" + _m.id) not in _have:
+            MUTANTS.append(M("c20-" + _m.id, _m.path, _m.old, _m.new, None, within=_m.within, edits=list(_m.edits),
+                             note="benign variant of C20"))
+    # the same new rename operation, its new name not normalised by the operation: Renamer stores a raw name
+    _rc, _ro = _c20._renamer_class(), _c20._rename_op()
+    _bad = _ro.replace("new_child_name = normalize(new_child_namex)", "new_child_name = new_child_namex")
+    if _bad != _ro:
+        MUTANTS.append(M("rename-op-new-name-not-normalised", _c20.F, _c20.ENC_ANCHOR, _rc + _c20.ENC_ANCHOR, "C19.4",
+                         edits=[(_c20.F, _c20.MOVE_ANCHOR, _bad + _c20.MOVE_ANCHOR)]))
+except Exception:                                   # the other property's self-test is not there / changed shape
+    pass
+
+
+# the table-driven shape of uri.from_string from the C15 / C16 self-tests (for/else with break, next(generator, None)):
+# C19.12 / C19.15 interpret it; the benign ones stay silent, a lost / pasted / shadowing row is a C19.12 breakage
+def _borrow(modname, benign, breaking):
+    try:
+        import importlib
+        other = importlib.import_module("." + modname, __package__)
+        have = {m.id for m in MUTANTS}
+        for m in other.MUTANTS:
+            mid = "%s-%s" % (modname.lower(), m.id)
+            if mid in have:
+                continue
+            if m.id in benign and m.expect is None:
+                MUTANTS.append(M(mid, m.path, m.old, m.new, None, within=m.within, edits=list(m.edits),
+                                 note="benign variant of " + modname))
+            elif m.id in breaking and m.expect is not None and m.expect != "ANALYSIS-ERROR":
+                MUTANTS.append(M(mid, m.path, m.old, m.new, "C19.12", within=m.within, edits=list(m.edits),
+                                 note="breaking variant of " + modname))
+    except Exception:                               # the other property's self-test is not there / changed shape
+        pass
+
+
+_borrow("C15", ("benign-from-string-table-driven", "benign-from-string-table-driven-next"),
+        ("table-row-dropped", "table-row-class-pasted", "table-row-prefix-shadows"))
+_borrow("C16", ("benign-from-string-table-driven", "benign-from-string-table-driven-next"),
+        ("table-ro-row-overrides-deep-immutable",))
